@@ -1,5 +1,6 @@
 //! vmon: runtime monitors for dropshot's semantic properties (see /verif/DESIGN.md).
 pub mod api;
+pub mod c05;
 pub mod client;
 pub mod evlog;
 pub mod gen;
